@@ -286,6 +286,17 @@ SPECS += [
          props=["C07"]),
 ]
 
+# ---- sdk/input.py, sdk/output.py : linking (`>>`): one source per input, targets appended (C19) ---------------------
+_ISOUT = "Lean:(Nat → Bool)"
+SPECS += [
+    dict(lean="Input_set_source", path="sdk/input.py", qual="Input.source@setter", group="Linking",
+         fields={"_source": "Opt[Obj]"}, params={"source": "Obj"}, extra_params={"isOutputObj": _ISOUT}, ret="Unit",
+         conds={"isinstance(source, IOutput)": "(isOutputObj source = true)"}, props=["C19"]),
+    dict(lean="Output_add_target", path="sdk/output.py", qual="Output.add_target", group="Linking",
+         fields={"_targets": "List[Obj]"}, params={"target": "Obj"}, extra_params={"isInputObj": _ISOUT}, ret="Unit",
+         conds={"isinstance(target, IInput)": "(isInputObj target = true)"}, props=["C19"]),
+]
+
 INTEG_COMMON = dict(
     path="adapters/time_integration.py", group="Integ", ret="Rat",
     calls={"self._unpack": "id", "interpolate": {"lean": "interpolate", "args": [0, 1, 2], "ret": "Rat"}},
